@@ -1027,7 +1027,21 @@ def load_oracle(case, obs, exp):
     return "ok", "runner exactly for valid input"
 
 
+def _reader_bytes(r):
+    """a reader of a load case: a byte list, a string, ("rep" n part) or ("cat" part ...)"""
+    if isinstance(r, str):
+        return r.encode("utf8")
+    if r and isinstance(r[0], str):
+        if str(r[0]) == "rep":
+            return _reader_bytes(r[2]) * int(r[1])
+        if str(r[0]) == "cat":
+            return b"".join(_reader_bytes(x) for x in r[1:])
+    return bytes(r)
+
+
 def load_features(case):
+    if any(isinstance(r, list) and r and isinstance(r[0], str) for r in case[2]):
+        return sexp.dump(case), True, ["readers=%d" % len(case[2]), "seed:lower", "size>1000000", "has-node", "utf8"]
     texts = [bytes(r).decode("utf8", "replace") for r in case[2]]
     seed = bytes(case[1]).decode("latin1") if isinstance(case[1], list) else str(case[1])
     labels = ["readers=%d" % len(texts), "seed:" + ("empty" if seed == "" else "lower" if all(c in "0123456789abcdefghijklmnopqrstuvwxyz" for c in seed) else "other"),
@@ -1040,6 +1054,8 @@ def load_features(case):
 def load_shrink(case):
     out = []
     rs = case[2]
+    if any(isinstance(r, list) and r and isinstance(r[0], str) for r in rs):
+        return out      # inputs of more than a megabyte are reported as they are
     if len(rs) > 1:
         for r in drop_each(rs):
             out.append([case[0], case[1], r])
